@@ -1123,10 +1123,9 @@ func freshNameLoop(f *ssa.Function, body map[*ssa.BasicBlock]bool) (string, bool
 	for b := range body {
 		for _, in := range b.Instrs {
 			if call, ok := in.(*ssa.Call); ok {
-				if o := core.CalleeObj(call); o != nil && o.Pkg() != nil && o.Pkg().Path() == "fmt" {
-					if strings.Contains(core.Sym(call), "phi(") || true {
-						fmtUse = true
-					}
+				// the candidate name is made from the counter: by a fmt formatter or a strconv conversion
+				if o := core.CalleeObj(call); o != nil && o.Pkg() != nil && (o.Pkg().Path() == "fmt" || o.Pkg().Path() == "strconv") {
+					fmtUse = true
 				}
 			}
 		}
